@@ -180,7 +180,7 @@ pub fn run(ctx: &Ctx) -> i32 {
             return 2;
         }
     }
-    flow_models(ctx, &shared, C02, FlowSpec { quick_depth: 3, thorough_depth: 4, extra: vec![], deep: true, seeded: true, t3: true, valuesets: true });
+    flow_models(ctx, &shared, C02, FlowSpec { quick_depth: 3, thorough_depth: 4, extra: vec![], deep: true, heavy_oracle: true, seeded: true, t3: true, valuesets: true });
     finish(
         ctx,
         &shared,
